@@ -110,6 +110,12 @@ func (g *gen) basic(family string, i int, seed uint64) *scenario {
 		}
 		sc.Hook.Children = append(sc.Hook.Children, c)
 	}
+	if ctl.GenSelector && len(sc.Hook.Children) > 0 && r.Chance(1, 4) {
+		// a desired child that already carries a controller-uid label, and not ours
+		c := sc.Hook.Children[r.Intn(len(sc.Hook.Children))]
+		c["metadata"].(J)["labels"].(J)["controller-uid"] = "uid-of-somebody-else"
+		sc.Features = append(sc.Features, "desired-foreign-uid-label")
+	}
 	sc.Hook.Kind = "const"
 	switch r.Intn(4) {
 	case 0:
@@ -715,6 +721,10 @@ func (g *gen) faulty(i int, seed uint64) *scenario {
 		}
 		sc.Features = append(sc.Features, "child-failure+status-race")
 	}
+	if r.Chance(1, 3) {
+		rs.Requeues = 1 + r.Intn(12) // the key is said to have failed that many times already
+		sc.Features = append(sc.Features, "many-requeues")
+	}
 	sc.Features = append(sc.Features, "fault")
 	for len(sc.Rounds) < 2 {
 		sc.Rounds = append(sc.Rounds, roundSpec{})
@@ -744,8 +754,14 @@ func (g *gen) rollout(i int, seed uint64, fair bool) *scenario {
 	kid := kidPool[r.Intn(2)]
 	kid.Method = []string{"RollingInPlace", "RollingRecreate"}[r.Intn(2)]
 	ready := "True"
-	if r.Chance(1, 2) {
+	reason := "Healthy"
+	switch r.Intn(4) {
+	case 0:
 		kid.Checks = []condCheck{{Type: "Ready", Status: &ready}}
+	case 1:
+		kid.Checks = []condCheck{{Type: "Ready", Status: &ready, Reason: &reason}}
+	case 2:
+		kid.Checks = []condCheck{{Type: "Ready", Reason: &reason}}
 	}
 	ctl.Kids = []kidSpec{kid}
 	if r.Chance(1, 4) {
@@ -790,10 +806,11 @@ func (g *gen) rollout(i int, seed uint64, fair bool) *scenario {
 	}
 	sc.Warmup = true
 	// after the warm-up: everything healthy, then the spec changes
-	healthy := extOp{Op: "healthy-all", APIVersion: kid.APIVersion, Kind: kid.Kind}
+	healthy := extOp{Op: "healthy-all", APIVersion: kid.APIVersion, Kind: kid.Kind, Data: J{"reason": "Healthy"}}
 	if r.Chance(1, 4) {
-		healthy.Data = J{"noObservedGeneration": true}
+		healthy.Data["noObservedGeneration"] = true
 	}
+	sickly := extOp{Op: "healthy-all", APIVersion: kid.APIVersion, Kind: kid.Kind, Data: J{"reason": "CrashLoopBackOff"}}
 	sc.Setup = []extOp{healthy}
 	pref := sc.parentRef()
 	edit := func(image string, replicas int64, note string) extOp {
@@ -813,6 +830,9 @@ func (g *gen) rollout(i int, seed uint64, fair bool) *scenario {
 		rs := roundSpec{}
 		if fair || r.Chance(2, 3) {
 			rs.PreOps = append(rs.PreOps, healthy)
+		} else if r.Bool() {
+			rs.PreOps = append(rs.PreOps, sickly) // Ready, but for the wrong reason
+			sc.Features = append(sc.Features, "wrong-reason-step")
 		} else {
 			sc.Features = append(sc.Features, "unhealthy-step")
 		}
@@ -882,6 +902,26 @@ func (g *gen) rollout(i int, seed uint64, fair bool) *scenario {
 	return sc
 }
 
+// rolloutFinalize: the parent is deleted in the middle of a rollout; the live revisions disagree about `finalized`
+func (g *gen) rolloutFinalize(i int, seed uint64) *scenario {
+	r := g.r
+	sc := g.rollout(i, seed, true)
+	sc.Family = "rollout-finalize"
+	sc.Ctl.Finalize = true
+	sc.Hook.FinalizedForImage = []string{"v1", "v2"}[r.Intn(2)]
+	ref := sc.parentRef()
+	ref.Op, ref.Data = "deleting", nil
+	at := 1 + r.Intn(2)
+	if at < len(sc.Rounds) {
+		sc.Rounds[at].PreOps = append(sc.Rounds[at].PreOps, ref)
+	}
+	if len(sc.Rounds) > at+3 {
+		sc.Rounds = sc.Rounds[:at+3]
+	}
+	sc.Features = append(sc.Features, "parent-deleted-mid-rollout", "revisions-disagree-on-finalized")
+	return sc
+}
+
 func indexOfKid(k kidSpec) int {
 	for i, p := range kidPool {
 		if p.Resource == k.Resource {
@@ -900,6 +940,12 @@ func generateScenarios(prop string, seed uint64, n int, adv bool) []*scenario {
 		switch {
 		case prop == "C02" && i%2 == 1:
 			out = append(out, g.race(i, s))
+		case prop == "C03" && i%3 == 1:
+			out = append(out, g.lifecycle(i, s))
+		case prop == "C03" && i%3 == 2:
+			out = append(out, g.adoptrace(i, s))
+		case prop == "C10" && i%8 == 1:
+			out = append(out, g.rolloutFinalize(i, s))
 		case prop == "C04" && i%2 == 1:
 			out = append(out, g.adoptrace(i, s))
 		case prop == "C10" && i%4 != 0:
